@@ -130,6 +130,22 @@ def run(ctx: Ctx) -> None:
                 if isinstance(t, ast.Attribute) and t.attr == "access" and not (isinstance(t.value, ast.Name) and t.value.id in ("f", "fdecl")):
                     allowed = m.name == "parserstate" and qual in ("ClassBlockState.__init__", "ClassBlockState._set_access")
                     ctx.ob("R3.2", f"{m.name}:{qual}|writes .access", allowed, msg=f"`{short(st)}` changes an access level outside the block state's own methods", node=st, mod=m, nontrivial=False)
+    # the constructor stores the level it is handed (the class-key default computed by the parser, R3.1), nothing it works
+    # out itself from the parent block or the class name
+    try:
+        cinit = ctx.repo.mod("parserstate").func("ClassBlockState.__init__")
+    except AnalysisError:
+        cinit = None
+    if cinit is not None:
+        ccfg = CFG(cinit)
+        crd = reaching_defs(ccfg)
+        for n_ in ccfg.nodes:
+            if n_.kind == "stmt" and isinstance(n_.stmt, ast.Assign) and any(isinstance(t, ast.Attribute) and t.attr == "access" and isinstance(t.value, ast.Name) and t.value.id == "self" for t in n_.stmt.targets):
+                v_ = n_.stmt.value
+                pnames = {a.arg for a in cinit.args.args[1:]}
+                ok_ = isinstance(v_, ast.Name) and v_.id in pnames and set(crd.get(n_.id, {}).get(v_.id, ())) <= {ccfg.entry.id}
+                ctx.ob("R3.2", "parserstate:ClassBlockState.__init__|stores the access level it is handed", ok_,
+                       msg=f"`{short(n_.stmt)}` stores something other than the constructor's own parameter as it was passed (it is re-bound on some path before the store): the starting access of a class body is then not the class-key default the parser computed", node=n_.stmt, mod=ctx.repo.mod("parserstate"), nontrivial=False)
     sa_sites = []
     for fname, fn in pm.methods.items():
         for c in walk_local(fn):
